@@ -41,6 +41,25 @@ func main() {
 		*tier = "quick"
 	}
 	seed, _ := strconv.Atoi(os.Getenv("VERIF_SEED"))
+	if strings.HasPrefix(*dump, "leaves:") {
+		p, err := core.Load(core.Config{Name: "default", Dir: *dir})
+		if err != nil {
+			fmt.Println(err)
+			os.Exit(2)
+		}
+		fp := strings.Split(strings.TrimPrefix(*dump, "leaves:"), ":")
+		props.DebugLeaves(&props.Run{P: p, E: core.NewEngine(p), R: core.NewReport("dbg", "quick", 0)}, fp[0], fp[1], fp[2])
+		return
+	}
+	if strings.HasPrefix(*dump, "loops:") {
+		p, err := core.Load(core.Config{Name: "default", Dir: *dir})
+		if err != nil {
+			fmt.Println(err)
+			os.Exit(2)
+		}
+		props.DebugLoops(&props.Run{P: p, E: core.NewEngine(p), R: core.NewReport("dbg", "quick", 0)}, strings.TrimPrefix(*dump, "loops:"))
+		return
+	}
 	if strings.HasPrefix(*dump, "paths:") {
 		p, err := core.Load(core.Config{Name: "default", Dir: *dir})
 		if err != nil {
